@@ -760,9 +760,9 @@ func (gs *GossipSubRouter) OnClosedIncomingStream(pid peer.ID, proto protocol.ID
 	if gs.gate != nil {
 		gs.gate.OnClosedIncomingStream(pid, proto)
 	}
-	if gs.feature(GossipSubFeatureExtensions, proto) {
-		gs.extensions.OnClosedIncomingStream(pid, proto)
-	}
+	// extension state is recorded for every peer that sends us an RPC, whatever
+	// protocol it speaks, so it has to be released for every peer as well.
+	gs.extensions.OnClosedIncomingStream(pid, proto)
 }
 
 func (gs *GossipSubRouter) OnNewOutboundStream(p peer.ID, proto protocol.ID, helloPacket *RPC) *RPC {
